@@ -3,7 +3,7 @@
    stable point of the invariant) those literals have the LTLf values of their formulas, so the rules - read with their literals - are jointly
    HT-satisfied exactly if the shifted head formula is. *)
 From Coq Require Import List Bool Arith ZArith Lia.
-Require Import GenPrelude TheoryPrelude FromTheory FormPrelude FromHeadForm TheorySem BodyTheoryFull HeadShift HeadDefs HeadForm HeadRulesProofs.
+Require Import GenPrelude TheoryPrelude FromTheory FormPrelude FromHeadForm TheorySem BodyTheoryFull HeadShift HeadDefs HeadForm HeadRulesProofs Leaf_dynamic.
 Import ListNotations.
 Section Link.
 Variable A : Type.
@@ -11,6 +11,7 @@ Variable A_eq_dec : forall a b : A, {a = b} + {a <> b}.
 Variable h : nat.
 Variable s : st A.
 Hypothesis I : Inv A A_eq_dec h [] s.
+Hypothesis W : Wf A A_eq_dec s.
 Variable T : HeadShift.trace A.
 Variable v : nat -> bool.
 Hypothesis Oc : ok_cls A T v s.
@@ -22,7 +23,7 @@ Definition added_rule_sat (H : HeadShift.trace A) (k : nat) (hd : list A) (ls : 
 Theorem added_rule_meaning (H : HeadShift.trace A) k (r : hrule A) ls : lits_of k (bd A r) ls -> added_rule_sat H k (hd A r) ls = rule_sat A h H T k r.
 Proof.
   intros F. unfold added_rule_sat, rule_sat. f_equal. induction F as [|b l bs ls C F IH]; cbn [existsb]; [reflexivity|].
-  now rewrite IH, (value_full A A_eq_dec h s I T v Oc Oe b k l C).
+  now rewrite IH, (value_full A A_eq_dec (reduce_eqs_hold A) h s I W T v Oc Oe b k l C).
 Qed.
 Theorem added_rules_mean_shifted_formula (H : HeadShift.trace A) (inbase : A -> bool) (F : hf A) d k rs (lss : list (list (lit A))) :
   (forall a, inbase a = false -> H k a = false) -> rules_at A inbase F d = Some rs -> Forall2 (fun r ls => lits_of k (bd A r) ls) rs lss ->
